@@ -105,7 +105,7 @@ func (t *Transport) Listen(tlsConf *tls.Config, conf *Config) (*Listener, error)
 	if _, dup := n.listeners[addr]; dup {
 		return nil, fmt.Errorf("listen %s: address already in use", addr)
 	}
-	l := &Listener{tr: t, addr: t.Conn.LocalAddr(), net: n}
+	l := &Listener{tr: t, addr: t.Conn.LocalAddr(), net: n, conf: conf}
 	n.listeners[addr] = l
 	t.listener = l
 	return l, nil
@@ -138,6 +138,7 @@ func (t *Transport) DialEarly(ctx context.Context, addr net.Addr, tlsConf *tls.C
 	}
 	c := newConn(e, n, 0, local, addr, t)
 	s := newConn(e, n, 1, addr, local, l.tr)
+	c.Conf, s.Conf = conf, l.conf
 	c.peer, s.peer = s, c
 	c.Index = len(n.Conns)
 	s.Index = c.Index
@@ -175,6 +176,7 @@ type Listener struct {
 	net    *Net
 	queue  []*Conn
 	closed bool
+	conf   *Config // the quic.Config the application listens with
 }
 
 var ErrServerClosed = quic.ErrServerClosed
@@ -247,6 +249,8 @@ type Conn struct {
 	CloseCode         ApplicationErrorCode // code of the first local CloseWithError
 	CloseCalls        int
 	InitialPacket     congestion.ByteCount
+	Conf              *Config // the quic.Config this side was dialled / listened with
+	CCResets          int     // times quic-go itself would have replaced the congestion controller (path migration)
 }
 
 func newConn(e *vsched.Exec, n *Net, side int, local, remote net.Addr, tr *Transport) *Conn {
@@ -274,6 +278,20 @@ func (c *Conn) InitialPacketSize() congestion.ByteCount { return c.InitialPacket
 func (c *Conn) SetCongestionControl(cc congestion.CongestionControl) {
 	c.cc = cc
 	c.CCSets = append(c.CCSets, cc)
+}
+
+// PeerAddressChanged models a peer whose UDP source address changes mid-connection (NAT rebinding,
+// a port-hopping client). With its path manager enabled quic-go validates the new path and, on
+// switching to it, replaces the connection's congestion controller with a fresh Reno sender
+// (sentPacketHandler.MigratedPath in the pinned fork): whatever the application installed at
+// authentication is gone. With Config.DisablePathManager the connection keeps its path state and
+// its controller.
+func (c *Conn) PeerAddressChanged(newAddr net.Addr) {
+	c.remote = newAddr
+	if c.Conf == nil || !c.Conf.DisablePathManager {
+		c.cc = nil
+		c.CCResets++
+	}
 }
 
 func (c *Conn) setClosed(err error) {
